@@ -280,7 +280,10 @@ impl StdInWorker for ScanStdin {
       return Ok(vec![]);
     };
     let lang = first.language;
-    let combined = CombinedScan::new(self.rules.iter().collect());
+    // the input is parsed once, in the language of the first rule: only rules of that language
+    // can be applied to the tree, like in the file scan
+    let rules = self.rules.iter().filter(|r| r.language == lang);
+    let combined = CombinedScan::new(rules.collect());
     let grep = lang.ast_grep(src);
     let path = Path::new("STDIN");
     let file_content = grep.source().to_string();
